@@ -127,7 +127,7 @@ class MemIO:
 CONTENT_TYPES = {"plain": "text/plain", "params": "text/csv; header=present", "case": "Application/X-Demo+JSON", "sym": None}
 
 
-def body_encode_parse(I, X, via="mapping", nn=1, n=1, ct="plain", buffer_size=64, order="field-first"):
+def body_encode_parse(I, X, via="mapping", nn=1, n=1, ct="plain", buffer_size=64, order="field-first", fn_skel="{}"):
     """test.encode_multipart (the test client's encoder: stream_encode_multipart, _iter_data,
     FileStorage / FileMultiDict.add_file) -> formparser.MultiPartParser: the text field and the
     upload come back with the same names, value, file name (the empty one included), content
@@ -149,6 +149,10 @@ def body_encode_parse(I, X, via="mapping", nn=1, n=1, ct="plain", buffer_size=64
     value = X.str("value", 1, minlen=0, maxcp=0x7FF)
     X.assume(pnone_in(value, [13, 10, 0x2D]))
     filename = text("filename", nn)
+    if fn_skel != "{}":
+        # solver characters inside a fixed text (reaches file names such as '<x>')
+        pre, _, post = fn_skel.partition("{}")
+        filename = pconcat(pre, filename, post)
     payload = X.bytes("payload", n, minlen=n)
     X.assume(pnot(pstartswith(payload, b"--b")))
     for lb in (b"\n", b"\r"):
@@ -247,7 +251,8 @@ def body_urlencoded(I, X, nk=1, nv=1, repeated=False, via="parse_qsl"):
     if ok:
         for (a, b), (c, d) in zip(back, items):
             ok = pand(ok, peq(a, c), peq(b, d))
-    ok = pand(ok, pall_in(qs, [(0x21, 0x7E)]))
+    # printable ASCII, and nothing that would end the query when it is put into a URL
+    ok = pand(ok, pall_in(qs, [(0x21, 0x7E)]), pnone_in(qs, [0x23]))
     return ok, {"qs": qs, "back": [list(x) for x in back]}
 
 
@@ -299,6 +304,27 @@ def body_field_text(I, X, n=1, buffer_size=7, maxcp=0x7FF):
     return ok, {"err": err, "fields": fields}
 
 
+def body_field_charset(I, X, label="ISO-8859-1", n=1, buffer_size=64):
+    """a text part that declares one of the accepted charsets (in any letter case, quoted or
+    not) is decoded with that charset: n solver bytes through formparser.MultiPartParser"""
+    from harness.c01 import run_parser
+
+    raw = X.bytes("value", n, minlen=n)
+    X.assume(pnone_in(raw, [13, 10, 0x2D]))
+    canon = label.strip('"').lower()
+    if canon in ("us-ascii", "ascii"):
+        X.assume(pall_in(raw, [(0, 0x7F)]))
+        want = raw.decode("latin-1")
+    elif canon == "iso-8859-1":
+        want = raw.decode("latin-1")
+    else:
+        want = raw.decode("utf-8", "replace")
+    body = pconcat(b'--b\r\nContent-Disposition: form-data; name="a"\r\nContent-Type: text/plain; charset=' + label.encode() + b"\r\n\r\n", raw, b"\r\n--b--\r\n")
+    err, fields, files, _ = run_parser(I, b"b", body, buffer_size)
+    ok = err is None and len(fields) == 1 and len(files) == 0 and fields[0][0] == "a" and bool(peq(fields[0][1], want))
+    return ok, {"err": err, "fields": fields}
+
+
 def obligations(tier, seed):
     out = []
     quick = tier == "quick"
@@ -307,6 +333,10 @@ def obligations(tier, seed):
             out.append({"name": f"field_text[n={n},maxcp={maxcp:#x},buffer_size={bs}]", "body": "body_field_text",
                         "params": {"n": n, "buffer_size": bs, "maxcp": maxcp},
                         "opts": {"budget_s": 900, "ctx": {"max_cp": maxcp, "loop_bound": 1000}}})
+    for label in ("ISO-8859-1", "iso-8859-1", '"Iso-8859-1"', "UTF-8", "US-ASCII", "latin-1"):
+        for n in ((1,) if quick else (1, 2)):
+            out.append({"name": f"field_charset[{label},n={n}]", "body": "body_field_charset", "params": {"label": label, "n": n},
+                        "opts": {"budget_s": 900, "ctx": {"max_cp": 0x7FF, "loop_bound": 1000}}})
     # urlencoded forms: urls._urlencode -> urllib.parse.parse_qsl (interpreted from its source,
     # with quote / unquote replaced by scan models)
     for nk, nv in ([(1, 0), (1, 1), (2, 1), (1, 2)] if quick else [(1, 0), (1, 1), (2, 1), (1, 2), (2, 2), (3, 1), (1, 3)]):
@@ -321,6 +351,11 @@ def obligations(tier, seed):
             out.append({"name": f"encode_parse[{via},filename={nn},payload={n},ct={ct},{order}]", "body": "body_encode_parse",
                         "params": {"via": via, "nn": nn, "n": n, "ct": ct, "order": order},
                         "opts": {"budget_s": 900, "ctx": {"max_cp": 0x7FF, "loop_bound": 1000}}, "witness": via == "mapping" and nn == 1 and ct == "params"})
+    for via in ("mapping", "combined"):
+        for skel in ("<{}>", "<{}", "a{}.txt"):
+            out.append({"name": f"encode_parse[{via},filename={skel!r}]", "body": "body_encode_parse",
+                        "params": {"via": via, "nn": 1 if quick else 2, "n": 1, "ct": "plain", "fn_skel": skel},
+                        "opts": {"budget_s": 900, "ctx": {"max_cp": 0x7FF, "loop_bound": 1000}}})
     # chunked decoding of the encoder's output with a realistic boundary
     for shape in ("field", "file"):
         for chunk in ([9, 16, 30] if quick else [5, 9, 12, 16, 23, 30, 41]):
